@@ -60,14 +60,16 @@ Inductive sop :=
 | SIndex (k : value)        (* t[k] with an __index function: value + whether the handler is consulted *)
 | SNext (k nk : value)      (* next(t,k) returned nk: is k present? what is the value at nk? *)
 | SLen
-| SAll.                     (* all live pairs *)
+| SAll                      (* all live pairs *)
+| SEq (a b : value).        (* are a and b raw-equal?  do they denote the same entry of a table? *)
 Inductive sres :=
 | SRUnit
 | SRBool (b : bool)
 | SRVal (v : value)
 | SRValB (v : value) (b : bool)
 | SRBorders (l : list Z)
-| SRPairs (l : smap).
+| SRPairs (l : smap)
+| SREq (raweq same : bool).
 
 Definition s_present (m : smap) (k : value) : bool := negb (is_nil (s_get m k)).
 
@@ -81,4 +83,5 @@ Definition s_step (m : smap) (o : sop) : smap * sres :=
   | SNext k nk => (m, SRValB (s_get m nk) (s_present m k))
   | SLen => (m, SRBorders (s_borders m))
   | SAll => (m, SRPairs m)
+  | SEq a b => (m, SREq (lua_eq a b) (negb (is_nil (s_get (s_set [] a (VBool true)) b))))
   end.
